@@ -5,18 +5,30 @@
   the property statement: `dateTextOf d`, `timeText t`, `naiveText sep dt` (`sep` = 84 `T` for `Debug`,
   32 space for `Display`), `offsetText off`.  `TextForms.*_debug` / `*_display` are the models of chrono's
   `Debug` / `Display` impls, `TextForms.*_from_str` the models of its `FromStr` impls
-  (Model/TextForms.lean, compared with the crate by the `tx.*` correspondence).  `NaiveDate`,
-  `NaiveTime` and `FixedOffset` have one writer for both forms (`Display` forwards to `Debug`).
+  (Model/TextForms.lean, Model/TextFormsExt.lean, compared with the crate by the `tx.*`
+  correspondence).  For `NaiveDate`, `NaiveTime` and `FixedOffset` `Display` forwards to `Debug`
+  (`date_display`, `time_display`, `offset_display`; `roundtrip_Display_forms`).
+  `Spec.Shape` (Spec/TextShapeSpec.lean) states the shape clause of the property as predicates on a
+  byte string (`DateShape`, `TimeShapeOf`, `OffsetShape`); the `*_text_shape` theorems apply them to
+  what the writers print.
 
   Side conditions of the property: `DateInv` / `TStrict` / `NDTInv` / `ZInv` are the representation
   invariants (a leap second only on second 59), `WholeMinute` the whole-minute offsets of less than a
-  day.  For zone-aware values the wall clock must be a `NaiveDate` (`Zoned.naive_local z = .ok l`);
-  the values for which it is not are the known finding F25, see the witness at the end.
+  day.  For zone-aware values the wall clock must fall on a `NaiveDate`: `InRangeSecs (wallSecs z)` in
+  specification terms (`roundtrip_DateTime_FixedOffset_spec`), `Zoned.naive_local z = .ok l` in the
+  model's.  The values for which it does not are the known finding F25:
+  `fixed_out_of_range_never_parses_back` (every such value, both range ends, both forms),
+  `fixed_parses_back_iff` (the side condition is exact), witnesses further down.
 -/
-import Chrono.Proofs.TextFormsZonedL
+import Chrono.Proofs.TextFormsExtL
+import Chrono.Proofs.TextFormsStL
+import Chrono.Proofs.TextShapeL
+import Chrono.Proofs.TextFormsCodeL
+import Chrono.Proofs.TextFormsMoreL
 namespace Chrono.Props.C09
 open Chrono Chrono.M Chrono.M.Format Chrono.M.TextForms
-open Chrono.Proofs Chrono.Proofs.TextForms Chrono.Spec Chrono.Spec.Text Chrono.Extracted
+open Chrono.Proofs Chrono.Proofs.TextForms Chrono.Proofs.TextFormsExt Chrono.Spec Chrono.Spec.Text Chrono.Extracted
+open Chrono.Spec.Shape Chrono.Proofs.TextShape
 
 /-! ### data tie -/
 
@@ -33,6 +45,43 @@ theorem items_match_source :
     Parse.TIME_ITEMS.map itemCode = Extracted.TF_ITEMS_relaxed_time ∧
     Extracted.TF_WEEKDAY_VARIANTS = Extracted.WEEKDAY_DISPLAY ∧
     Extracted.TF_MONTH_VARIANTS = Extracted.MONTH_NAMES := by decide
+
+/-- **the item code is faithful** (audit gap L3): `itemCode` is injective on items and on item lists,
+so the equalities of CODES in `items_match_source` pin the model's item lists themselves; `Numeric.all`
+and `Fixed.all` list every variant; and the three index orders behind the code coincide — the model's
+enumeration (`Numeric.all`, the first 19 = public entries of `Fixed.all`, `padIdx`), the tables
+tools/extractors/textforms.py indexes into (`TF_*_INDEX`), and the variant order of the Rust enums
+`Numeric` / `Fixed` / `Pad` in src/format/mod.rs as found on this run (`TF_*_ENUM`) -/
+theorem item_codes_faithful :
+    (∀ a b : Item, itemCode a = itemCode b → a = b) ∧
+    (∀ l1 l2 : List Item, l1.map itemCode = l2.map itemCode → l1 = l2) ∧
+    (∀ n : Numeric, n ∈ Numeric.all) ∧ (∀ f : Fixed, f ∈ Fixed.all) ∧
+    Numeric.all.map (fun n => asciiBytes n.name) = TF_NUMERIC_INDEX ∧ TF_NUMERIC_INDEX = TF_NUMERIC_ENUM ∧
+    (Fixed.all.take 19).map (fun f => asciiBytes f.name) = TF_FIXED_INDEX ∧ TF_FIXED_INDEX = TF_FIXED_ENUM ∧
+    [Pad.none, Pad.zero, Pad.space].map padIdx = [0, 1, 2] ∧
+    TF_PAD_INDEX = [asciiBytes "None", asciiBytes "Zero", asciiBytes "Space"] ∧ TF_PAD_INDEX = TF_PAD_ENUM :=
+  ⟨TextFormsCode.itemCode_inj, TextFormsCode.itemCodes_inj, TextFormsCode.numeric_complete,
+    TextFormsCode.fixed_complete, by decide +kernel, by decide +kernel, by decide +kernel, by decide +kernel,
+    by decide, by decide +kernel, by decide +kernel⟩
+
+/-- the item lists found in the Rust source determine the model's item lists: any item list with the
+extracted codes IS the model's list -/
+theorem items_determined_by_source (l : List Item) :
+    (l.map itemCode = Extracted.TF_ITEMS_naive_date → l = DATE_ITEMS) ∧
+    (l.map itemCode = Extracted.TF_ITEMS_naive_time_hm → l = HOUR_AND_MINUTE) ∧
+    (l.map itemCode = Extracted.TF_ITEMS_naive_time_sn → l = SECOND_AND_NANOS) ∧
+    (l.map itemCode = Extracted.TF_ITEMS_naive_time_ws → l = TRAILING_WHITESPACE) ∧
+    (l.map itemCode = Extracted.TF_ITEMS_naive_datetime → l = DATETIME_ITEMS) ∧
+    (l.map itemCode = Extracted.TF_ITEMS_relaxed_date → l = Parse.DATE_ITEMS) ∧
+    (l.map itemCode = Extracted.TF_ITEMS_relaxed_time → l = Parse.TIME_ITEMS) := by
+  obtain ⟨h1, h2, h3, h4, h5, h6, h7, _, _⟩ := items_match_source
+  exact ⟨fun h => TextFormsCode.itemCodes_inj _ _ (h.trans h1.symm),
+    fun h => TextFormsCode.itemCodes_inj _ _ (h.trans h2.symm),
+    fun h => TextFormsCode.itemCodes_inj _ _ (h.trans h3.symm),
+    fun h => TextFormsCode.itemCodes_inj _ _ (h.trans h4.symm),
+    fun h => TextFormsCode.itemCodes_inj _ _ (h.trans h5.symm),
+    fun h => TextFormsCode.itemCodes_inj _ _ (h.trans h6.symm),
+    fun h => TextFormsCode.itemCodes_inj _ _ (h.trans h7.symm)⟩
 
 /-! ### round trips -/
 
@@ -166,6 +215,172 @@ theorem roundtrip_DateTime_FixedOffset (z : Zoned) (hz : ZInv z) (hm : WholeMinu
   · exact fixed_from_text z hz hm.2.2 hs l hl 32 (Or.inr rfl) _ _ (tailOk_cons 32 _ (by decide) (by decide))
       (by rw [trimStart_space _ r3, htrim]) hT
 
+/-! ### zone-aware values on the whole quantifier domain (audit gaps M1, M2)
+
+`wallSecs z = instSecs z.utc + z.off` is the wall clock in whole seconds since the epoch and
+`InRangeSecs s` says that the reading `s` falls on a date of `NaiveDate::MIN..=MAX`
+(Spec/ZonedSpec.lean; plain arithmetic on day numbers, no chrono code).  Every well-formed value with a
+whole-minute offset satisfies exactly one of `InRangeSecs (wallSecs z)` / `¬ InRangeSecs (wallSecs z)`;
+the first case round-trips (`roundtrip_DateTime_FixedOffset_spec`), the second is the known finding F25
+(`fixed_out_of_range_never_parses_back`). -/
+
+/-- **DateTime<FixedOffset>, domain in specification terms.**  For every well-formed value with a
+whole-minute offset whose wall clock falls on a `NaiveDate`, the wall clock `l` (the reading of
+`wallSecs z` with the fraction field of `z`) is what both forms print, and `FromStr` reads either
+form back as the same instant with the same offset.  Same conclusion as
+`roundtrip_DateTime_FixedOffset`, with the side condition no longer phrased through the model's
+`naive_local`. -/
+theorem roundtrip_DateTime_FixedOffset_spec (z : Zoned) (hz : ZInv z) (hm : WholeMinute z.off)
+    (hs : TStrict z.utc.time) (hr : InRangeSecs (wallSecs z)) :
+    ∃ l, NDTInv l ∧ instSecs l = wallSecs z ∧ l.time.frac = z.utc.time.frac ∧
+      fixed_debug z = wok (naiveText 84 l ++ offsetText z.off) ∧
+      fixed_from_str (naiveText 84 l ++ offsetText z.off) = .ok (.ok z) ∧
+      fixed_display z = wok (naiveText 32 l ++ (32 :: offsetText z.off)) ∧
+      fixed_from_str (naiveText 32 l ++ (32 :: offsetText z.off)) = .ok (.ok z) := by
+  obtain ⟨l, _, hext, h3, h4, _, _, _, h5, h6⟩ := local_facts_ext z hz hm.2.2 hs
+  have hl : Zoned.naive_local z = .ok l := by rw [h5, if_pos hr]
+  exact ⟨l, ⟨(dateInv_iff l.date).mpr ⟨hext.1, h6.mp hr⟩, hext.2⟩, h3, h4,
+    roundtrip_DateTime_FixedOffset z hz hm hs l hl⟩
+
+/-- the wall clock named by `roundtrip_DateTime_FixedOffset_spec` is unique: a well-formed naive
+date-time is determined by its whole seconds and its fraction field -/
+theorem wall_clock_unique (a b : NaiveDT) (ha : NDTInv a) (hb : NDTInv b)
+    (h1 : instSecs a = instSecs b) (h2 : a.time.frac = b.time.frac) : a = b :=
+  ndt_unique a b ⟨((dateInv_iff a.date).mp ha.1).1, ha.2⟩ ⟨((dateInv_iff b.date).mp hb.1).1, hb.2⟩ h1 h2
+
+/-- non-vacuity of `roundtrip_DateTime_FixedOffset_spec`, on the last in-range wall-clock second:
+`MAX_UTC` − 1 min seen at +00:01 -/
+example : ZInv ⟨⟨Date.MAX, ⟨86339, 999999999⟩⟩, 60⟩ ∧ WholeMinute 60 ∧ TStrict (⟨86339, 999999999⟩ : Time) ∧
+    InRangeSecs (wallSecs ⟨⟨Date.MAX, ⟨86339, 999999999⟩⟩, 60⟩) ∧
+    wallSecs ⟨⟨Date.MAX, ⟨86339, 999999999⟩⟩, 60⟩ = SECS_MAX := by
+  unfold ZInv NDTInv OffValid WholeMinute
+  decide +kernel
+
+/-- **Known finding F25, universally.**  For EVERY well-formed value with a whole-minute offset whose
+wall clock does not fall on a `NaiveDate` (`¬ InRangeSecs (wallSecs z)`: the UTC reading is within
+|offset| of `MIN_UTC` / `MAX_UTC`), both forms print the wall clock `l` of the extended calendar —
+year `MIN_YEAR − 1 = -262144` or `MAX_YEAR + 1 = +262143`, same specified text shape — and `FromStr`
+answers `Err(OutOfRange)` for the `Debug` and for the `Display` text.  The property asks for
+`.ok (.ok z)`; together with `roundtrip_DateTime_FixedOffset_spec` this makes the side condition
+exact (`fixed_parses_back_iff`). -/
+theorem fixed_out_of_range_never_parses_back (z : Zoned) (hz : ZInv z) (hm : WholeMinute z.off)
+    (hs : TStrict z.utc.time) (hr : ¬ InRangeSecs (wallSecs z)) :
+    ∃ l, Zoned.overflowing_naive_local z = .ok l ∧ ExtNDTInv l ∧ instSecs l = wallSecs z ∧
+      l.time.frac = z.utc.time.frac ∧
+      (l.date.year = MIN_YEAR - 1 ∨ l.date.year = MAX_YEAR + 1) ∧
+      Zoned.naive_local z = .panic ∧
+      fixed_debug z = wok (naiveText 84 l ++ offsetText z.off) ∧
+      fixed_from_str (naiveText 84 l ++ offsetText z.off) = .ok (.error .outOfRange) ∧
+      fixed_display z = wok (naiveText 32 l ++ (32 :: offsetText z.off)) ∧
+      fixed_from_str (naiveText 32 l ++ (32 :: offsetText z.off)) = .ok (.error .outOfRange) := by
+  obtain ⟨l, hov, hext, h3, h4, hst, hv, he, h5, h6⟩ := local_facts_ext z hz hm.2.2 hs
+  obtain ⟨htxt, htail, hws, htrim, hT⟩ := offset_tail z.off hm
+  have hY : ¬ (MIN_YEAR ≤ l.date.year ∧ l.date.year ≤ MAX_YEAR) := fun h => hr (h6.mpr h)
+  have hyr : l.date.year = MIN_YEAR - 1 ∨ l.date.year = MAX_YEAR + 1 := by
+    have := hv.1; have := hv.2.1; omega
+  refine ⟨l, hov, hext, h3, h4, hyr, by rw [h5, if_neg hr], ?_, ?_, ?_, ?_⟩
+  · unfold fixed_debug zoned_debug
+    rw [hov, htxt]
+    simp only [W.ofRes]
+    obtain ⟨Y, O, hv', he'⟩ : ∃ Y O, VYO Y O ∧ l = ⟨dateOfYo Y O, l.time⟩ := ⟨_, _, hv, he⟩
+    rw [he', naive_debug_text_ext Y O hv' _ hst.1, seq_wok]
+  · exact fixed_from_text_oor l hv he hY hst z.off hz.2 84 (Or.inl rfl) _ _ htail (by rw [htrim, htrim]) hT
+  · unfold fixed_display zoned_display
+    rw [hov, htxt]
+    simp only [W.ofRes]
+    obtain ⟨Y, O, hv', he'⟩ : ∃ Y O, VYO Y O ∧ l = ⟨dateOfYo Y O, l.time⟩ := ⟨_, _, hv, he⟩
+    rw [he', naive_display_text_ext Y O hv' _ hst.1, seq_wok, seq_wok]
+    simp only [List.cons_append, List.nil_append]
+  · exact fixed_from_text_oor l hv he hY hst z.off hz.2 32 (Or.inr rfl) _ _
+      (tailOk_cons 32 _ (by decide) (by decide)) (by rw [trimStart_space _ hws, htrim]) hT
+
+/-- **the side condition is exact**: over the whole quantifier domain (well-formed value, whole-minute
+offset, leap second only on second 59) the printed text — `Debug` or `Display` — of the wall clock `l`
+reads back as the value if and only if the wall clock falls on a `NaiveDate` -/
+theorem fixed_parses_back_iff (z : Zoned) (hz : ZInv z) (hm : WholeMinute z.off) (hs : TStrict z.utc.time) :
+    ∃ l, Zoned.overflowing_naive_local z = .ok l ∧
+      fixed_debug z = wok (naiveText 84 l ++ offsetText z.off) ∧
+      fixed_display z = wok (naiveText 32 l ++ (32 :: offsetText z.off)) ∧
+      (fixed_from_str (naiveText 84 l ++ offsetText z.off) = .ok (.ok z) ↔ InRangeSecs (wallSecs z)) ∧
+      (fixed_from_str (naiveText 32 l ++ (32 :: offsetText z.off)) = .ok (.ok z) ↔ InRangeSecs (wallSecs z)) := by
+  by_cases hr : InRangeSecs (wallSecs z)
+  · obtain ⟨l, hov, _, _, _, _, _, _, h5, _⟩ := local_facts_ext z hz hm.2.2 hs
+    have hl : Zoned.naive_local z = .ok l := by rw [h5, if_pos hr]
+    obtain ⟨a, b, c, d⟩ := roundtrip_DateTime_FixedOffset z hz hm hs l hl
+    exact ⟨l, hov, a, c, ⟨fun _ => hr, fun _ => b⟩, ⟨fun _ => hr, fun _ => d⟩⟩
+  · obtain ⟨l, hov, _, _, _, _, _, a, b, c, d⟩ := fixed_out_of_range_never_parses_back z hz hm hs hr
+    refine ⟨l, hov, a, c, ⟨fun h => ?_, fun h => absurd h hr⟩, ⟨fun h => ?_, fun h => absurd h hr⟩⟩
+    · rw [b] at h; cases h
+    · rw [d] at h; cases h
+
+/-- F25 on the MIN side, both forms: `MIN_UTC` seen at -00:01 prints the wall-clock year -262144 -/
+theorem fixed_local_before_min_does_not_parse_back :
+    ZInv ⟨NaiveDT.MIN, -60⟩ ∧ WholeMinute (-60) ∧ TStrict NaiveDT.MIN.time ∧
+    ¬ InRangeSecs (wallSecs ⟨NaiveDT.MIN, -60⟩) ∧
+    fixed_debug ⟨NaiveDT.MIN, -60⟩ = wok (asciiBytes "-262144-12-31T23:59:00-00:01") ∧
+    fixed_from_str (asciiBytes "-262144-12-31T23:59:00-00:01") = .ok (.error .outOfRange) ∧
+    fixed_display ⟨NaiveDT.MIN, -60⟩ = wok (asciiBytes "-262144-12-31 23:59:00 -00:01") ∧
+    fixed_from_str (asciiBytes "-262144-12-31 23:59:00 -00:01") = .ok (.error .outOfRange) := by
+  have hz : ZInv ⟨NaiveDT.MIN, -60⟩ := by unfold ZInv NDTInv OffValid; decide +kernel
+  have hm : WholeMinute (-60) := by unfold WholeMinute; decide
+  have hs : TStrict NaiveDT.MIN.time := by decide +kernel
+  have hr : ¬ InRangeSecs (wallSecs ⟨NaiveDT.MIN, -60⟩) := by decide +kernel
+  obtain ⟨l, hov, _, _, _, _, _, a, b, c, d⟩ :=
+    fixed_out_of_range_never_parses_back ⟨NaiveDT.MIN, -60⟩ hz hm hs hr
+  have hl : Zoned.overflowing_naive_local ⟨NaiveDT.MIN, -60⟩ = .ok ⟨dateOfYo (-262144) 366, ⟨86340, 0⟩⟩ := by
+    decide +kernel
+  rw [hl] at hov
+  injection hov with hov
+  subst hov
+  have t84 : naiveText 84 ⟨dateOfYo (-262144) 366, ⟨86340, 0⟩⟩ ++ offsetText (-60) =
+      asciiBytes "-262144-12-31T23:59:00-00:01" := by decide +kernel
+  have t32 : naiveText 32 ⟨dateOfYo (-262144) 366, ⟨86340, 0⟩⟩ ++ (32 :: offsetText (-60)) =
+      asciiBytes "-262144-12-31 23:59:00 -00:01" := by decide +kernel
+  rw [t84] at a b
+  rw [t32] at c d
+  exact ⟨hz, hm, hs, hr, a, b, c, d⟩
+
+/-- F25 on the MAX side in the `Display` form (the `Debug` form is
+`fixed_local_out_of_range_does_not_parse_back` below) -/
+theorem fixed_local_after_max_display_does_not_parse_back :
+    ¬ InRangeSecs (wallSecs ⟨NaiveDT.MAX, 60⟩) ∧
+    fixed_display ⟨NaiveDT.MAX, 60⟩ = wok (asciiBytes "+262143-01-01 00:00:59.999999999 +00:01") ∧
+    fixed_from_str (asciiBytes "+262143-01-01 00:00:59.999999999 +00:01") = .ok (.error .outOfRange) := by
+  have hz : ZInv ⟨NaiveDT.MAX, 60⟩ := by unfold ZInv NDTInv OffValid; decide +kernel
+  have hm : WholeMinute 60 := by unfold WholeMinute; decide
+  have hs : TStrict NaiveDT.MAX.time := by decide +kernel
+  have hr : ¬ InRangeSecs (wallSecs ⟨NaiveDT.MAX, 60⟩) := by decide +kernel
+  obtain ⟨l, hov, _, _, _, _, _, _, _, c, d⟩ :=
+    fixed_out_of_range_never_parses_back ⟨NaiveDT.MAX, 60⟩ hz hm hs hr
+  have hl : Zoned.overflowing_naive_local ⟨NaiveDT.MAX, 60⟩ = .ok ⟨dateOfYo 262143 1, ⟨59, 999999999⟩⟩ := by
+    decide +kernel
+  rw [hl] at hov
+  injection hov with hov
+  subst hov
+  have t32 : naiveText 32 ⟨dateOfYo 262143 1, ⟨59, 999999999⟩⟩ ++ (32 :: offsetText 60) =
+      asciiBytes "+262143-01-01 00:00:59.999999999 +00:01" := by decide +kernel
+  rw [t32] at c d
+  exact ⟨hr, c, d⟩
+
+/-- **DateTime<Local>**, both forms.  `Local`'s values print through the generic `DateTime<Tz>` impls
+with a `FixedOffset` as offset, and `FromStr for DateTime<Local>` is the fixed-offset reader followed
+by `with_timezone(&Local)`.  For every value of the round-trip domain whose offset is the one the zone
+prescribes at its instant (`localOff z.utc = z.off` — what every `DateTime<Local>` satisfies; the zone
+itself is a parameter), both texts are the `DateTime<FixedOffset>` texts and read back as the value -/
+theorem roundtrip_DateTime_Local (localOff : NaiveDT → Int) (z : Zoned) (hz : ZInv z) (hm : WholeMinute z.off)
+    (hs : TStrict z.utc.time) (hr : InRangeSecs (wallSecs z)) (hloc : localOff z.utc = z.off) :
+    local_dt_debug z = fixed_debug z ∧ local_dt_display z = fixed_display z ∧
+    ∃ l, NDTInv l ∧ instSecs l = wallSecs z ∧ l.time.frac = z.utc.time.frac ∧
+      local_dt_debug z = wok (naiveText 84 l ++ offsetText z.off) ∧
+      local_from_str localOff (naiveText 84 l ++ offsetText z.off) = .ok (.ok z) ∧
+      local_dt_display z = wok (naiveText 32 l ++ (32 :: offsetText z.off)) ∧
+      local_from_str localOff (naiveText 32 l ++ (32 :: offsetText z.off)) = .ok (.ok z) := by
+  obtain ⟨l, a1, a2, a3, b1, b2, b3, b4⟩ := roundtrip_DateTime_FixedOffset_spec z hz hm hs hr
+  have hback : (⟨z.utc, localOff z.utc⟩ : Zoned) = z := by rw [hloc]
+  refine ⟨rfl, rfl, l, a1, a2, a3, b1, ?_, b3, ?_⟩
+  · unfold local_from_str; rw [b2]; exact congrArg (fun x => Res.ok (Except.ok x)) hback
+  · unfold local_from_str; rw [b4]; exact congrArg (fun x => Res.ok (Except.ok x)) hback
+
 /-- **DateTime<Utc>**, both forms: the text is the UTC reading followed by `Z` (`Debug`), resp. by
 ` UTC` (`Display`), and `FromStr` reads either back as the same value -/
 theorem roundtrip_DateTime_Utc (u : NaiveDT) (hu : NDTInv u) (hs : TStrict u.time) :
@@ -231,6 +446,158 @@ theorem roundtrip_FixedOffset (off : Int) (h : WholeMinute off) :
 example : WholeMinute (-34200) ∧ offsetText (-34200) = asciiBytes "-09:30" := by
   unfold WholeMinute; decide +kernel
 
+/-! ### `Display` forwards to `Debug` (audit gap L2), the stateful `NaiveTime` reader (L4) -/
+
+/-- **NaiveDate, NaiveTime, FixedOffset: the `Display` column.**  The models of the three `Display`
+impls (`date_display`, `time_display`, `offset_display`, Model/TextFormsExt.lean — each is
+`fmt::Debug::fmt(self, f)` in the source, pinned in Pins/C09) print the specified text and that text
+reads back, exactly as the `Debug` column does -/
+theorem roundtrip_Display_forms :
+    (∀ d : Date, DateInv d → date_display d = wok (dateTextOf d) ∧ date_display d = date_debug d ∧
+      date_from_str (dateTextOf d) = .ok (.ok d)) ∧
+    (∀ t : Time, TStrict t → time_display t = wok (timeText t) ∧ time_display t = time_debug t ∧
+      time_from_str (timeText t) = .ok t) ∧
+    (∀ off : Int, WholeMinute off → offset_display off = offsetText off ∧ offset_display off = offset_debug off ∧
+      offset_from_str (offsetText off) = .ok off) :=
+  ⟨fun d hd => ⟨(roundtrip_NaiveDate d hd).1, rfl, (roundtrip_NaiveDate d hd).2⟩,
+   fun t ht => ⟨(roundtrip_NaiveTime t ht).1, rfl, (roundtrip_NaiveTime t ht).2⟩,
+   fun off h => ⟨(roundtrip_FixedOffset off h).1, rfl, (roundtrip_FixedOffset off h).2⟩⟩
+
+/-- **NaiveTime's `FromStr` with the parse state threaded through.**  `time_from_str_st`
+(Model/TextFormsExt.lean; the function the driver runs) carries the `Parsed` record of a failed
+optional seconds run into the trailing-white-space parse and `to_naive_time`, as the code does;
+`time_from_str` (used in the theorems above) drops it.  They agree on EVERY input, and the round trip
+holds for the stateful reader -/
+theorem time_from_str_stateful :
+    (∀ s : List Nat, time_from_str_st s = time_from_str s) ∧
+    (∀ t : Time, TStrict t → time_from_str_st (timeText t) = .ok t) :=
+  ⟨TextFormsSt.time_from_str_st_eq,
+   fun t ht => by rw [TextFormsSt.time_from_str_st_eq]; exact (roundtrip_NaiveTime t ht).2⟩
+
+/-- the stateful reader on a leap second with a fraction, through the theorem -/
+example : time_from_str_st (asciiBytes "23:59:60.500") = .ok ⟨86399, 1500000000⟩ := by
+  have := time_from_str_stateful.2 ⟨86399, 1500000000⟩ (by decide)
+  rwa [show timeText ⟨86399, 1500000000⟩ = asciiBytes "23:59:60.500" by decide +kernel] at this
+
+/-! ### beyond the printed form: what `FromStr` accepts in addition (characterisations)
+
+The property is about the printed form; its text also mentions the readers.  These theorems pin, for
+every value, three spellings the readers accept that the writers never produce: a time of day without
+seconds, the lower-case separator `t`, and `z` / `utc` for the zero offset. -/
+
+/-- **NaiveTime without seconds**: `HH:MM` reads as `HH:MM:00`, for each of the 1 440 minutes of a day;
+this is the path on which the optional seconds run fails (`time_from_str_st` and `time_from_str`
+agree on it) -/
+theorem NaiveTime_reads_without_seconds (h mi : Nat) (hh : h ≤ 23) (hmi : mi ≤ 59) :
+    time_from_str (decN 2 h ++ [58] ++ decN 2 mi) = .ok ⟨(h : Int) * 3600 + (mi : Int) * 60, 0⟩ ∧
+    time_from_str_st (decN 2 h ++ [58] ++ decN 2 mi) = .ok ⟨(h : Int) * 3600 + (mi : Int) * 60, 0⟩ := by
+  have e : decN 2 h ++ [58] ++ decN 2 mi = RenderScan.two h ++ (58 :: RenderScan.two mi) := by
+    rw [decN_two h (by omega), decN_two mi (by omega)]
+    simp only [List.append_assoc, List.cons_append, List.nil_append]
+  rw [TextFormsSt.time_from_str_st_eq, e]
+  exact ⟨TextFormsMore.time_without_seconds h mi hh hmi, TextFormsMore.time_without_seconds h mi hh hmi⟩
+
+example : decN 2 23 ++ [58] ++ decN 2 56 = asciiBytes "23:56" := by decide
+
+/-- **outside the side condition "leap second only on second 59"** (a value only `with_nanosecond` can
+build): the text is the canonical text of the ordinary time one second later, so `FromStr` returns THAT
+value — a round trip is impossible, which is why the property (and `TStrict`) excludes these values -/
+theorem NaiveTime_leap_off_59_reads_as_next_second (t : Time) (ht : TValid t) (hl : t.frac ≥ 1000000000)
+    (h59 : t.secs % 60 ≠ 59) :
+    TStrict ⟨t.secs + 1, t.frac - 1000000000⟩ ∧
+    time_debug t = wok (timeText ⟨t.secs + 1, t.frac - 1000000000⟩) ∧
+    time_from_str (timeText ⟨t.secs + 1, t.frac - 1000000000⟩) = .ok ⟨t.secs + 1, t.frac - 1000000000⟩ ∧
+    (⟨t.secs + 1, t.frac - 1000000000⟩ : Time) ≠ t := by
+  have hs : TStrict ⟨t.secs + 1, t.frac - 1000000000⟩ := by
+    obtain ⟨t0, t1, t2, t3⟩ := ht
+    exact ⟨⟨by dsimp only; omega, by dsimp only; omega, by dsimp only; omega, by dsimp only; omega⟩,
+      Or.inl (by dsimp only; omega)⟩
+  refine ⟨hs, ?_, (roundtrip_NaiveTime _ hs).2, ?_⟩
+  · rw [TextFormsMore.time_debug_leap_off_59 t ht hl h59]; exact (roundtrip_NaiveTime _ hs).1
+  · intro h
+    have := congrArg Time.secs h
+    dsimp only at this
+    omega
+
+example : TValid ⟨45240, 1500000000⟩ ∧ (45240 : Int) % 60 ≠ 59 ∧
+    timeText ⟨45241, 500000000⟩ = asciiBytes "12:34:01.500" := by decide +kernel
+
+/-- **outside the side condition "whole-minute offset"**: a `FixedOffset` with a seconds part prints
+`±hh:mm:ss`, and `FixedOffset::from_str` — which does not look at what follows the minutes — returns
+the offset truncated (toward zero) to a whole minute: never the value itself.  Universal over all
+169 920 such offsets. -/
+theorem FixedOffset_with_seconds_reads_truncated (off : Int) (h : -86400 < off ∧ off < 86400)
+    (hs : off % 60 ≠ 0) :
+    offset_debug off = (if off < 0 then 45 else 43) ::
+      (decN 2 (off.natAbs / 3600) ++ [58] ++ decN 2 (off.natAbs / 60 % 60) ++ [58] ++ decN 2 (off.natAbs % 60)) ∧
+    offset_display off = offset_debug off ∧
+    offset_from_str (offset_debug off) =
+      .ok (if off < 0 then -((off.natAbs : Int) - (off.natAbs : Int) % 60)
+           else (off.natAbs : Int) - (off.natAbs : Int) % 60) ∧
+    offset_from_str (offset_debug off) ≠ .ok off := by
+  have hr := TextFormsMore.offset_with_seconds_reads_truncated off h hs
+  refine ⟨?_, rfl, hr, ?_⟩
+  · rw [TextFormsMore.offset_debug_with_seconds off h hs, decN_two _ (by omega), decN_two _ (by omega),
+      decN_two _ (by omega)]
+    simp only [List.append_assoc, List.cons_append, List.nil_append]
+  · rw [hr]
+    intro he
+    injection he with he
+    split at he <;> omega
+
+example : offset_debug 19815 = asciiBytes "+05:30:15" ∧ offset_debug (-61) = asciiBytes "-00:01:01" := by
+  decide +kernel
+
+/-- **DateTime<FixedOffset> with a lower-case `t`**: for every value of the round-trip domain the wall
+clock written with `t` between date and time, followed by the offset, reads back as the value -/
+theorem DateTime_FixedOffset_reads_lowercase_t (z : Zoned) (hz : ZInv z) (hm : WholeMinute z.off)
+    (hs : TStrict z.utc.time) (hr : InRangeSecs (wallSecs z)) :
+    ∃ l, NDTInv l ∧ instSecs l = wallSecs z ∧ l.time.frac = z.utc.time.frac ∧
+      fixed_from_str (naiveText 116 l ++ offsetText z.off) = .ok (.ok z) := by
+  obtain ⟨l, _, hext, h3, h4, _, _, _, h5, h6⟩ := local_facts_ext z hz hm.2.2 hs
+  have hl : Zoned.naive_local z = .ok l := by rw [h5, if_pos hr]
+  obtain ⟨_, htail, _, htrim, hT⟩ := offset_tail z.off hm
+  exact ⟨l, ⟨(dateInv_iff l.date).mpr ⟨hext.1, h6.mp hr⟩, hext.2⟩, h3, h4,
+    TextFormsMore.fixed_from_text3 z hz hm.2.2 hs l hl 116 (Or.inl rfl) _ _ htail (by rw [htrim, htrim]) hT⟩
+
+/-- **DateTime<Utc> / zero offset in lower case**: `…t…z`, `…T…z`, `… utc` and `…Tutc`-less forms —
+for every UTC value the Debug text with `t` and/or `z` in lower case and the Display text with `utc` in
+lower case read back as the value (through `DateTime<Utc>`'s and `DateTime<FixedOffset>`'s `FromStr`) -/
+theorem DateTime_Utc_reads_lowercase (u : NaiveDT) (hu : NDTInv u) (hs : TStrict u.time) :
+    utc_from_str (naiveText 116 u ++ asciiBytes "z") = .ok (.ok ⟨u, 0⟩) ∧
+    utc_from_str (naiveText 84 u ++ asciiBytes "z") = .ok (.ok ⟨u, 0⟩) ∧
+    utc_from_str (naiveText 116 u ++ asciiBytes "Z") = .ok (.ok ⟨u, 0⟩) ∧
+    utc_from_str (naiveText 32 u ++ asciiBytes " utc") = .ok (.ok ⟨u, 0⟩) ∧
+    fixed_from_str (naiveText 116 u ++ asciiBytes "z") = .ok (.ok ⟨u, 0⟩) ∧
+    fixed_from_str (naiveText 32 u ++ asciiBytes " utc") = .ok (.ok ⟨u, 0⟩) := by
+  have hz : ZInv ⟨u, 0⟩ := ⟨hu, by show OffValid 0; unfold OffValid; omega⟩
+  have hext : ExtNDTInv u := ⟨((dateInv_iff u.date).mp hu.1).1, hu.2⟩
+  have hov : Zoned.overflowing_naive_local ⟨u, 0⟩ = .ok u :=
+    local_back ⟨u, 0⟩ hz u hext (by show instSecs u = instSecs u - 0; omega) rfl
+  obtain ⟨l', h1, _, _, _, h5, h6⟩ := naive_local_spec ⟨u, 0⟩ hz
+  rw [hov] at h1
+  injection h1 with h1
+  subst h1
+  have hl : Zoned.naive_local ⟨u, 0⟩ = .ok u := by rw [h5, if_pos (h6.mp hu.1)]
+  have hm0 : (⟨u, 0⟩ : Zoned).off % 60 = 0 := by show (0 : Int) % 60 = 0; decide
+  have f1 := TextFormsMore.fixed_from_text3 ⟨u, 0⟩ hz hm0 hs u hl 116 (Or.inl rfl) (asciiBytes "z") [122]
+    (tailOk_cons 122 _ (by decide) (by decide)) (by decide) (by show _ = Except.ok ([], (0 : Int)); rfl)
+  have f2 := TextFormsMore.fixed_from_text3 ⟨u, 0⟩ hz hm0 hs u hl 84 (Or.inr (Or.inl rfl)) (asciiBytes "z") [122]
+    (tailOk_cons 122 _ (by decide) (by decide)) (by decide) (by show _ = Except.ok ([], (0 : Int)); rfl)
+  have f3 := TextFormsMore.fixed_from_text3 ⟨u, 0⟩ hz hm0 hs u hl 116 (Or.inl rfl) (asciiBytes "Z") [90]
+    (tailOk_cons 90 _ (by decide) (by decide)) (by decide) (by show _ = Except.ok ([], (0 : Int)); rfl)
+  have f4 := TextFormsMore.fixed_from_text3 ⟨u, 0⟩ hz hm0 hs u hl 32 (Or.inr (Or.inr rfl)) (asciiBytes " utc")
+    [117, 116, 99] (tailOk_cons 32 _ (by decide) (by decide)) (by decide)
+    (by show _ = Except.ok ([], (0 : Int)); rfl)
+  refine ⟨?_, ?_, ?_, ?_, f1, f4⟩
+  · unfold utc_from_str; rw [f1]; rfl
+  · unfold utc_from_str; rw [f2]; rfl
+  · unfold utc_from_str; rw [f3]; rfl
+  · unfold utc_from_str; rw [f4]; rfl
+
+example : naiveText 116 ⟨dateOfYo 2015 261, ⟨86164, 500000000⟩⟩ ++ asciiBytes "z" =
+    asciiBytes "2015-09-18t23:56:04.500z" := by decide +kernel
+
 /-- **Weekday**: both the derived `Debug` name and the `Display` name read back -/
 theorem roundtrip_Weekday (w : Weekday) :
     Weekday.parse (weekday_debug w) = some w ∧ Weekday.parse w.display = some w :=
@@ -293,7 +660,7 @@ theorem print_shape_fraction (nano : Nat) (_h : nano < 1000000000) :
     · rw [h'.1]; norm_num; omega
     · rw [h']; norm_num
   · intro k hk hz
-    unfold fracDigits
+    unfold Text.fracDigits
     rcases hk with rfl | rfl | rfl | rfl <;> norm_num at hz <;> repeat' split
     all_goals omega
 
@@ -308,11 +675,124 @@ theorem print_shape_leap_second (t : Time) (ht : TStrict t) :
   · intro h; rw [if_pos h]; omega
   · intro h; rw [if_neg (by omega)]; omega
 
+/-! ### the shape of what the writers print (audit gap L1)
+
+The three theorems above are about the specification's text functions.  Below, the shape predicates of
+Spec/TextShapeSpec.lean (`DateShape`, `TimeShapeOf`, `OffsetShape`: plain statements about bytes,
+digits and the numbers they denote — sign exactly outside 0..=9999, fewest of 0/3/6/9 exact fraction
+digits, second 60 for a leap second) are stated directly on the output of the `Debug` / `Display`
+models. -/
+
+/-- NaiveDate, both forms: `[sign]YYYY-MM-DD` with the sign rule of the property -/
+theorem NaiveDate_text_shape (d : Date) (hd : DateInv d) :
+    ∃ s, date_debug d = wok s ∧ date_display d = wok s ∧
+      DateShape d.year (monthOfYo d.year d.ordinal.toNat) (dayOfYo d.year d.ordinal.toNat) s := by
+  obtain ⟨hvd, _⟩ := date_of_inv d hd
+  obtain ⟨a1, a2, _, a4, _, a6⟩ := vd_month_day _ _ hvd
+  exact ⟨_, (roundtrip_NaiveDate d hd).1, (roundtrip_NaiveDate d hd).1,
+    dateShape_dateText _ ⟨a1, a2⟩ _ _ (by omega) (by omega)⟩
+
+/-- NaiveTime, both forms: `HH:MM:SS[.fraction]`, minimal exact fraction, second 60 for a leap second -/
+theorem NaiveTime_text_shape (t : Time) (ht : TStrict t) :
+    ∃ s, time_debug t = wok s ∧ time_display t = wok s ∧ TimeShapeOf t s :=
+  ⟨_, (roundtrip_NaiveTime t ht).1, (roundtrip_NaiveTime t ht).1, timeShape_timeText t ht⟩
+
+/-- NaiveDateTime: date, `T` (`Debug`) or space (`Display`), time -/
+theorem NaiveDateTime_text_shape (dt : NaiveDT) (h : NDTInv dt) (hs : TStrict dt.time) :
+    ∃ ds ts, naive_debug dt = wok (ds ++ 84 :: ts) ∧ naive_display dt = wok (ds ++ 32 :: ts) ∧
+      DateShape dt.date.year (monthOfYo dt.date.year dt.date.ordinal.toNat)
+        (dayOfYo dt.date.year dt.date.ordinal.toNat) ds ∧ TimeShapeOf dt.time ts := by
+  obtain ⟨hvd, _⟩ := date_of_inv dt.date h.1
+  obtain ⟨a1, a2, _, a4, _, a6⟩ := vd_month_day _ _ hvd
+  exact ⟨dateTextOf dt.date, timeText dt.time, (roundtrip_NaiveDateTime_debug dt h hs).1,
+    (roundtrip_NaiveDateTime_display_fails dt h hs).1,
+    dateShape_dateText _ ⟨a1, a2⟩ _ _ (by omega) (by omega), timeShape_timeText _ hs⟩
+
+/-- DateTime<FixedOffset>, the WHOLE quantifier domain (the F25 band included: there the year shown
+is -262144 or +262143, six digits with its sign): wall-clock date, `T` / space, wall-clock time,
+nothing / space, `±hh:mm`; the wall clock `l` is the reading of `wallSecs z` on the extended calendar
+with the fraction field of the value -/
+theorem DateTime_FixedOffset_text_shape (z : Zoned) (hz : ZInv z) (hm : WholeMinute z.off)
+    (hs : TStrict z.utc.time) :
+    ∃ l ds ts os, ExtNDTInv l ∧ instSecs l = wallSecs z ∧ l.time.frac = z.utc.time.frac ∧
+      fixed_debug z = wok (ds ++ 84 :: (ts ++ os)) ∧ fixed_display z = wok (ds ++ 32 :: (ts ++ 32 :: os)) ∧
+      DateShape l.date.year (monthOfYo l.date.year l.date.ordinal.toNat)
+        (dayOfYo l.date.year l.date.ordinal.toNat) ds ∧ TimeShapeOf l.time ts ∧ OffsetShape z.off os := by
+  obtain ⟨l, _, hext, h3, h4, hst, hv, hd, hp⟩ := fixed_texts_ext z hz hm hs
+  obtain ⟨a1, a2, _, a4, _, a6⟩ := vyo_month_day _ _ hv
+  refine ⟨l, dateTextOf l.date, timeText l.time, offsetText z.off, hext, h3, h4, ?_, ?_,
+    dateShape_dateText _ ⟨a1, a2⟩ _ _ (by omega) (by omega), timeShape_timeText _ hst,
+    offsetShape_offsetText _ hz.2⟩
+  · rw [hd]; simp only [naiveText, List.append_assoc, List.cons_append]
+  · rw [hp]; simp only [naiveText, List.append_assoc, List.cons_append]
+
+/-- DateTime<Utc>: date, `T` / space, time, `Z` / ` UTC` -/
+theorem DateTime_Utc_text_shape (u : NaiveDT) (hu : NDTInv u) (hs : TStrict u.time) :
+    ∃ ds ts, utc_dt_debug u = wok (ds ++ 84 :: (ts ++ asciiBytes "Z")) ∧
+      utc_dt_display u = wok (ds ++ 32 :: (ts ++ asciiBytes " UTC")) ∧
+      DateShape u.date.year (monthOfYo u.date.year u.date.ordinal.toNat)
+        (dayOfYo u.date.year u.date.ordinal.toNat) ds ∧ TimeShapeOf u.time ts := by
+  obtain ⟨hvd, _⟩ := date_of_inv u.date hu.1
+  obtain ⟨a1, a2, _, a4, _, a6⟩ := vd_month_day _ _ hvd
+  obtain ⟨b1, _, b3, _⟩ := roundtrip_DateTime_Utc u hu hs
+  refine ⟨dateTextOf u.date, timeText u.time, ?_, ?_,
+    dateShape_dateText _ ⟨a1, a2⟩ _ _ (by omega) (by omega), timeShape_timeText _ hs⟩
+  · rw [b1]; simp only [naiveText, List.append_assoc, List.cons_append]; rfl
+  · rw [b3]; simp only [naiveText, List.append_assoc, List.cons_append]; rfl
+
+/-- FixedOffset, both forms: `±hh:mm` -/
+theorem FixedOffset_text_shape (off : Int) (h : WholeMinute off) :
+    offset_display off = offset_debug off ∧ OffsetShape off (offset_debug off) := by
+  refine ⟨rfl, ?_⟩
+  rw [(roundtrip_FixedOffset off h).1]
+  exact offsetShape_offsetText off ⟨h.1, h.2.1⟩
+
+/-- what the shape predicates say on concrete text: year 12345 shows `+` and five digits, a fraction
+of 500 ms shows exactly `.500`, a leap second shows second 60; -0001 keeps four digits -/
+example : DateShape 12345 3 1 (asciiBytes "+12345-03-01") ∧ ¬ DateShape 12345 3 1 (asciiBytes "12345-03-01") ∧
+    TimeShapeOf ⟨86399, 1500000000⟩ (asciiBytes "23:59:60.500") ∧
+    ¬ FracShape 500000000 (asciiBytes ".500000") ∧ ¬ FracShape 500000000 (asciiBytes ".5") ∧
+    DateShape (-1) 12 31 (asciiBytes "-0001-12-31") := by
+  refine ⟨?_, ?_, ?_, ?_, ?_, ?_⟩
+  · have := dateShape_dateText 12345 (by omega) 3 1 (by omega) (by omega)
+    rwa [show dateText 12345 3 1 = asciiBytes "+12345-03-01" by decide +kernel] at this
+  · rintro ⟨ys, ms, ds, he, ⟨sign, dg, hy, _, _, _, _, _, hplus, _⟩, ⟨hml, _, _⟩, ⟨hdl, _, _⟩⟩
+    have hsign : sign = [43] := hplus.mpr (by omega)
+    subst hsign; subst hy
+    have : asciiBytes "12345-03-01" = [49, 50, 51, 52, 53, 45, 48, 51, 45, 48, 49] := by decide
+    rw [this] at he
+    simp only [List.cons_append, List.nil_append, List.cons.injEq] at he
+    omega
+  · have := timeShape_timeText ⟨86399, 1500000000⟩ (by decide)
+    rwa [show timeText ⟨86399, 1500000000⟩ = asciiBytes "23:59:60.500" by decide +kernel] at this
+  · rintro (⟨h, _⟩ | ⟨_, k, ds, he, _, hl, _, _, hmin⟩)
+    · omega
+    · have : asciiBytes ".500000" = [46, 53, 48, 48, 48, 48, 48] := by decide
+      rw [this] at he
+      injection he with _ he
+      subst he
+      simp only [List.length_cons, List.length_nil] at hl
+      have := hmin 3 (Or.inl rfl) (by omega)
+      omega
+  · rintro (⟨h, _⟩ | ⟨_, k, ds, he, _, hl, hk, _, _⟩)
+    · omega
+    · have : asciiBytes ".5" = [46, 53] := by decide
+      rw [this] at he
+      injection he with _ he
+      subst he
+      simp only [List.length_cons, List.length_nil] at hl
+      omega
+  · have := dateShape_dateText (-1) (by omega) 12 31 (by omega) (by omega)
+    rwa [show dateText (-1) 12 31 = asciiBytes "-0001-12-31" by decide +kernel] at this
+
 /-! ### known finding F25: a wall clock outside `NaiveDate`'s range -/
 
 /-- `DateTime::<Utc>::MAX_UTC` seen at +00:01 prints the wall-clock year +262143 and `FromStr` answers
 `Err(OutOfRange)` (the reader resolves the local date first); the side condition
-`Zoned.naive_local z = .ok l` of `roundtrip_DateTime_FixedOffset` excludes exactly these values -/
+`Zoned.naive_local z = .ok l` of `roundtrip_DateTime_FixedOffset` excludes exactly these values
+(`fixed_parses_back_iff`; universal form `fixed_out_of_range_never_parses_back`, MIN side and
+`Display` form `fixed_local_before_min_does_not_parse_back`,
+`fixed_local_after_max_display_does_not_parse_back`) -/
 theorem fixed_local_out_of_range_does_not_parse_back :
     ZInv ⟨NaiveDT.MAX, 60⟩ ∧ WholeMinute 60 ∧ TStrict NaiveDT.MAX.time ∧
     Zoned.naive_local ⟨NaiveDT.MAX, 60⟩ = .panic ∧
